@@ -381,6 +381,14 @@ def sections(ctx: Any) -> List[Ob]:
             lst = next((v[1] for v in written.values() if v[2] == norm(a)), '?')
             want_pairs.add((p_, lst))
     obs.append(ob(R, hm, e, 'more remains iff some section offset is below the length of that same section\'s list', ok_hm and pairs == want_pairs and len(pairs) == 4, f'compares {sorted(pairs)}; expected {sorted(want_pairs)}'))
+    # the message is marked finished only when everything has been written: an entry writer can raise (a label that cannot be
+    # encoded); marking first would make every later call hand out the partial sequence (TC on its last datagram, entries missing)
+    pk0 = prog.cls(OUT).methods['packets']
+    pcfg = cfg_of(pk0.node)
+    fin = [n for n in pcfg.nodes if n.kind == 'stmt' and any(self_attr(t, pk0.params[0]) == 'state' and isinstance(st, ast.Assign) and norm(st.value) != '0' for t, st in attr_stores(n.ast))]
+    writers = [n for n in pcfg.nodes if any(call_name(c).startswith(('_write_', '_insert_', 'write_')) or call_name(c) in ('_reset_for_next_packet',) for c in n.calls())]
+    early = [(f_, w_) for f_ in fin for w_ in writers if pcfg.can_reach(f_, w_)]
+    obs.append(ob(R, pk0, fin[0].ast if fin else 'self.state = STATE_FINISHED', 'the finished mark is set after the last write (no writer can run -- and raise -- once it is set)', bool(fin) and not early, f'a writer at line {early[0][1].line} can run after the message was marked finished at line {early[0][0].line}' if early else ''))
     return obs
 
 
